@@ -321,8 +321,8 @@ variable [DecidableEq K]
 abbrev Edge (K : Type) := Pt K × Pt K
 
 abbrev eHit (x0 px py : K) (e : Edge K) : Prop := hit e.1.x e.1.y e.2.x e.2.y x0 px py
-def eStraddle (py : K) (e : Edge K) : Prop := Straddle e.1.y e.2.y py
-instance (py : K) (e : Edge K) : Decidable (eStraddle py e) := by unfold eStraddle Straddle; infer_instance
+abbrev eStraddle (py : K) (e : Edge K) : Prop := Straddle e.1.y e.2.y py
+instance (ay by' py : K) : Decidable (Straddle ay by' py) := by unfold Straddle; infer_instance
 def eX (py : K) (e : Edge K) : K := xstar e.1.x e.1.y e.2.x e.2.y py
 def eClear (x0 px py : K) (e : Edge K) : Prop := Clear e.1.x e.1.y e.2.x e.2.y x0 px py
 
@@ -636,3 +636,71 @@ theorem line_line_complete (p0x p0y p1x p1y q0x q0y q1x q1y t1 t2 : K)
   rw [if_neg n1, if_neg n2, winFilter_eq, if_pos ⟨w1, ⟨w2.1, by linarith [w2.2]⟩⟩]
 
 end C05C
+
+/-! ### winding number zero outside the bounding box (closed chains of lines) -/
+
+namespace C11B
+open Gen C05M Winding
+variable {K : Type} [Field K] [LinearOrder K] [IsStrictOrderedRing K] [DecidableEq K]
+
+/-- the sign sum over all hits in insertion order, row by row (`pre` = the segments before the rows) -/
+theorem windSum_flat (pre : List (Seg K)) (rows : List (Seg K × List (K × K))) :
+    windSum (pre ++ rows.map (·.1)) own (flatHits pre.length rows) =
+      (rows.map fun r => (r.2.map fun p => tanSign r.1 p.1).sum).sum := by
+  induction rows generalizing pre with
+  | nil => simp [flatHits, windSum]
+  | cons r rows ih =>
+    obtain ⟨s, pairs⟩ := r
+    have ih' := ih (pre ++ [s])
+    have e1 : pre ++ [s] ++ rows.map (·.1) = pre ++ ((s, pairs) :: rows).map (·.1) := by simp
+    have e2 : (pre ++ [s]).length = pre.length + 1 := by simp
+    rw [e1, e2] at ih'
+    have h0 : (pre ++ s :: rows.map (·.1)).getD pre.length (Seg.line ⟨0, 0⟩ ⟨0, 0⟩) = s := by
+      rw [List.getD_eq_getElem?_getD, List.getElem?_append_right (le_refl _)]
+      simp
+    unfold windSum at ih' ⊢
+    simp only [List.map_cons] at ih'
+    simp only [flatHits, List.map_append, List.sum_append, List.map_cons, List.sum_cons]
+    rw [ih']
+    congr 1
+    simp only [hitsOf, List.map_map, own, Function.comp_def, h0]
+
+theorem tanSign_line (a b : Pt K) (t : K) : tanSign (Seg.line a b) t = if b.y - a.y < 0 then -1 else 1 := rfl
+
+/-- side indicator of a vertex with respect to the level py -/
+def side (py : K) (v : Pt K) : Int := if v.y < py then 0 else 1
+
+/-- closed chains telescope -/
+theorem telescope (f : Pt K → Int) : ∀ (l : List (Pt K)) (a z : Pt K),
+    ((Clip.edges (a :: l ++ [z])).map fun e => f e.2 - f e.1).sum = f z - f a := by
+  intro l
+  induction l with
+  | nil => intro a z; simp [Clip.edges]
+  | cons b l ih =>
+    intro a z
+    have := ih b z
+    simp only [List.cons_append, Clip.edges, List.map_cons, List.sum_cons] at this ⊢
+    rw [this]; ring
+
+/-- for an edge whose end levels differ from py: the tangent sign of a straddling edge is the change of side, and a
+    non-straddling edge does not change side -/
+theorem sign_is_side_change (py : K) (e : Edge K) (h1 : e.1.y ≠ py) (h2 : e.2.y ≠ py) :
+    (if eStraddle py e then (if e.2.y - e.1.y < 0 then (-1 : Int) else 1) else 0) = side py e.2 - side py e.1 := by
+  unfold side
+  rcases lt_or_gt_of_ne h1 with a | a <;> rcases lt_or_gt_of_ne h2 with b | b
+  · have l : ¬ eStraddle py e := by rintro (h | h) <;> linarith [h.1, h.2]
+    rw [if_neg l, if_pos a, if_pos b]; rfl
+  · have l : eStraddle py e := Or.inl ⟨a, b⟩
+    have nb : ¬ e.2.y < py := not_lt.mpr (le_of_lt b)
+    have up : ¬ e.2.y - e.1.y < 0 := by linarith
+    rw [if_pos l, if_neg up, if_pos a, if_neg nb]; rfl
+  · have l : eStraddle py e := Or.inr ⟨b, a⟩
+    have na : ¬ e.1.y < py := not_lt.mpr (le_of_lt a)
+    have dn : e.2.y - e.1.y < 0 := by linarith
+    rw [if_pos l, if_pos dn, if_neg na, if_pos b]; rfl
+  · have l : ¬ eStraddle py e := by rintro (h | h) <;> linarith [h.1, h.2]
+    have na : ¬ e.1.y < py := not_lt.mpr (le_of_lt a)
+    have nb : ¬ e.2.y < py := not_lt.mpr (le_of_lt b)
+    rw [if_neg l, if_neg na, if_neg nb]; rfl
+
+end C11B
